@@ -145,6 +145,8 @@ def gen_sequence(rng, n):
         elif k <= 9: toks.append((gen_float(rng), "float"))
         elif k == 10: toks.append((gen_char(rng), "char"))
         else: toks.append((gen_string(rng), "str"))
+    if toks[0][0] in ("#", "%:", "##", "%:%:"):
+        toks.insert(0, ("y", "ident"))
     text, placed = "", []
     for j, (sp, cls) in enumerate(toks):
         if j:
@@ -241,16 +243,19 @@ def run(ctx):
     seqs = []
     # every punctuator alone, every ordered pair of punctuators with each separator class and with none
     puncts = list(PUNCT)
+    # (an identifier in front keeps '#', '%:' from starting a directive line)
     for p in puncts:
-        seqs.append((p, [(p, "punct", 0)]))
+        seqs.append(("x " + p, [("x", "ident", 0), (p, "punct", 2)]))
     for a, b in itertools.product(puncts, repeat=2):
         for sep in ("", " ", "\n", "/**/", "\\\n"):
             if sep in ("", "\\\n") or (sep == "/**/" and a.endswith("/")):
                 st = spec_tokens(a + b)
                 if st is None or [x[0] for x in st] != [a, b] or "//" in a + b or "/*" in a + b or (sep == "/**/" and a.endswith("/")):
                     continue
-            text = a + sep + b
-            seqs.append((text, [(a, "punct", 0), (b, "punct", len(a + sep))]))
+            text = "x " + a + sep + b
+            if "\n" in sep and b in ("#", "%:", "##", "%:%:"):
+                continue
+            seqs.append((text, [("x", "ident", 0), (a, "punct", 2), (b, "punct", 2 + len(a + sep))]))
     npairs = len(seqs)
     for tri, k in TRIGRAPHS.items():
         pass
@@ -285,8 +290,11 @@ def run(ctx):
              b"'", b"\"", b"\\", b"\n", b" ", b"a", b"_", b"\xc3", b"\xa9", b"\xf0", b";", b"~"]
     for n in (1, 2):
         texts += [b"".join(p) for p in itertools.product(alpha, repeat=n)]
+        texts += [b"a " + b"".join(p) for p in itertools.product(alpha, repeat=n)]      # not at the start of a line: '#' is a token, not a directive
     tri = list(itertools.product(alpha, repeat=3))
-    texts += [b"".join(p) for p in (tri if not ctx.quick else rng.sample(tri, 8000))]
+    texts += [(b"a " if j % 2 else b"") + b"".join(p) for j, p in enumerate(tri if not ctx.quick else rng.sample(tri, 8000))]
+    # every punctuator followed by every 1- and 2-symbol continuation
+    texts += [b"a " + p.encode() + b"".join(q) for p in list(PUNCT) + list(TRIGRAPHS) for n in (1, 2) for q in itertools.product(alpha, repeat=n)]
     for _ in range(3000 if ctx.quick else 60000):
         texts.append(b"".join(rng.choice(alpha + [b"0x", b"1.", b"e+", b"//", b"/*", b"*/", b"u8", b"LR\"", b"R\"x(", b")x\"", b"# ", b"\n#", b"line", b"\x00", b"\xff", b"\xe4\xb8\xad", b"\xf0\x9f\x98\x80"])
                               for _ in range(rng.randrange(1, 14))))
